@@ -279,8 +279,10 @@ fn filter_in_effect(ex: &mut Exec) -> R<()> {
         h.major_compact()
             .map_err(|e| Deviation::new("unexpected-error:major_compact", format!("{e:?}")))?;
         if crate::exec::filt::assigned(ks) {
-            ex.filtered_check(ks, true)?;
-            ex.stats.inc("filter.strict_checks");
+            // in a session opened without the assigner the filter is not in effect: only the non-strict rules apply
+            let strict = !ex.assigner_off;
+            ex.filtered_check(ks, strict)?;
+            ex.stats.inc(if strict { "filter.strict_checks" } else { "filter.nonstrict_checks_without_assigner" });
         } else {
             ex.sweep_ks(ks, 1)?;
             ex.stats.inc("filter.unassigned_exact_checks");
@@ -642,6 +644,7 @@ pub fn replay_main(args: &Args) -> i32 {
                         "property" => property = v.to_string(),
                         "seed" => seed = v.parse().unwrap_or(1),
                         "case" => idx = v.parse().unwrap_or(0),
+                        "assigner" if v == "always" => crate::exec::ASSIGNER_ALWAYS.store(true, std::sync::atomic::Ordering::Relaxed),
                         _ => {}
                     }
                 }
